@@ -131,7 +131,12 @@ func (e *Env) typedMapAxiom(name, c string) {
 		read = "(select " + c + " r!)"
 		binders = "((r! Int))"
 	}
-	f := e.typeFacts(nil, Value{T: read, Sort: e.sr.sortOf(mt.T), GoT: mt.T})
+	var ts *State
+	if strings.HasSuffix(c, "!0") {
+		// initial heap: every stored reference was allocated before entry
+		ts = &State{alloc: "alloc!0"}
+	}
+	f := e.typeFacts(ts, Value{T: read, Sort: e.sr.sortOf(mt.T), GoT: mt.T})
 	if f == "true" {
 		return
 	}
